@@ -209,6 +209,10 @@ impl GraphSpec {
                     body.push_str(&format!(
                         "$id{i}: unique-id();\n$v{i}: 0;\n@mixin bump{i}($x) {{ $v{i}: $x !global; }}\nm{i} {{ id: $id{i}; }}\n"
                     ));
+                    // every other module also has members that Sass treats as private (`-`/`_` prefix)
+                    if i % 2 == 1 {
+                        body.push_str(&format!("$-p{i}: 1;\n$_q{i}: 2;\n@function -f{i}() {{ @return $-p{i} + $_q{i}; }}\n"));
+                    }
                 }
                 Stmt::Assign { ns, target, value, by_mixin: true, .. } => {
                     let q = self.member_prefix_via(i, ns, *target);
